@@ -147,7 +147,7 @@ def report_mismatches(ck, r, prefix=""):
 
 def handle_crash(ck, r, phase):
     err = (r.stderr or "")[-3000:]
-    if err.startswith("TIMEOUT"):
+    if err.startswith("TIMEOUT") or r.returncode == 95 or "TIMEOUT:" in err:
         # the harness finishes in well under a minute on a correct tree and bounds its own loops: a library call did not return
         ck.violation("hang:" + phase, {"what": "a library call (or an iteration built on it) did not terminate while replaying a specification behaviour", "detail": err})
         return
